@@ -70,6 +70,44 @@ func mutate(r *prng.R, s string) string {
 	return string(b)
 }
 
+// extremeNumber replaces one run of digits of a script by a literal at the edge of what a double holds (the grammar's
+// number token is digits of any length): the script stays valid.
+func extremeNumber(r *prng.R, s string) string {
+	var runs [][2]int
+	for i := 0; i < len(s); {
+		if s[i] >= '0' && s[i] <= '9' {
+			j := i
+			for j < len(s) && s[j] >= '0' && s[j] <= '9' {
+				j++
+			}
+			runs = append(runs, [2]int{i, j})
+			i = j
+		} else {
+			i++
+		}
+	}
+	if len(runs) == 0 {
+		return s
+	}
+	k := runs[r.Intn(len(runs))]
+	var lit string
+	switch r.Intn(6) {
+	case 0:
+		lit = "1" + strings.Repeat("0", 308) // largest power of ten that is finite
+	case 1:
+		lit = "1" + strings.Repeat("0", 309+r.Intn(40)) // overflows to +Inf
+	case 2:
+		lit = strings.Repeat("9", 310+r.Intn(200))
+	case 3:
+		lit = "0." + strings.Repeat("0", 330+r.Intn(100)) + "1" // underflows to 0
+	case 4:
+		lit = strings.Repeat("0", 40) + "7"
+	default:
+		lit = "179769313486231580793728971405303415079934132710037826936173778980444968292764750946649017977587207096330286416692887910946555547851940402630657488671505820681908902000708383676273854845817711531764475730270069855571366959622842914819860834936475292719074168444365510704342711559699508093042880177904174497792" // 2^1024 rounded: the first value that is not finite
+	}
+	return s[:k[0]] + lit + s[k[1]:]
+}
+
 // mixIndent replaces the indentation of one indented content line by a mix of tabs and spaces of the same, a smaller or a
 // larger width (a tab counts 8 columns): mixed indentation must be refused wherever it occurs, also on a line that merely
 // continues or closes a level.
@@ -150,7 +188,11 @@ func init() {
 			text = b.String()
 		case "mutate":
 			text = validScript(r)
-			if r.Intn(6) != 0 {
+			switch r.Intn(8) {
+			case 0:
+			case 1:
+				text = extremeNumber(r, text)
+			default:
 				text = mutate(r, text)
 			}
 		case "mixed":
@@ -160,6 +202,9 @@ func init() {
 				text = mixIndent(r, validScript(r))
 			case 0:
 				text = validScript(r)
+				if r.Intn(3) == 0 {
+					text = extremeNumber(r, text)
+				}
 			case 1:
 				text = mutate(r, validScript(r))
 			default:
